@@ -160,6 +160,11 @@ type TrackPool struct {
 	Gets     int
 	Releases int
 	PayCap   int // if >0, frames are handed out with Payload re-sliced to this length
+	// Reuse: hand released frames out again, LIFO and without clearing them, like a real
+	// pool does (stale bytes of an earlier message stay in the buffer). Such frames are
+	// not poisoned; double releases are still detected.
+	Reuse bool
+	free  []*tchannel.Frame
 }
 
 func newTrackPool(w *World, node string) *TrackPool {
@@ -167,6 +172,13 @@ func newTrackPool(w *World, node string) *TrackPool {
 }
 
 func (p *TrackPool) Get() *tchannel.Frame {
+	if p.Reuse && len(p.free) > 0 {
+		f := p.free[len(p.free)-1]
+		p.free = p.free[:len(p.free)-1]
+		p.frames[f].state = 1
+		p.Gets++
+		return f
+	}
 	f := tchannel.NewFrame(tchannel.MaxFramePayloadSize)
 	if p.PayCap > 0 && p.PayCap < len(f.Payload) {
 		f.Payload = f.Payload[:p.PayCap]
@@ -190,6 +202,10 @@ func (p *TrackPool) Release(f *tchannel.Frame) {
 	r.state = 2
 	r.relPCs = callers()
 	p.Releases++
+	if p.Reuse {
+		p.free = append(p.free, f)
+		return
+	}
 	if !p.w.NoPoison {
 		tchannel.VerifPoisonFrame(f)
 	}
@@ -244,6 +260,7 @@ type NodeOpts struct {
 	RelayLocal  []string
 	MaxIdle, IdleInterval time.Duration
 	PayCap      int
+	PoolReuse   bool
 	OnPeerStatus func(*tchannel.Peer)
 	Handler     tchannel.Handler // optional channel-level handler override
 	Tracer      opentracing.Tracer
@@ -273,6 +290,7 @@ func (w *World) addNode(o NodeOpts) *Node {
 	n := &Node{W: w, Name: o.Name, Host: o.Host, Service: o.Service, Opts: o, LogCount: map[string]int{}, LogMsgs: map[string]int{}}
 	n.Pool = newTrackPool(w, o.Name)
 	n.Pool.PayCap = o.PayCap
+	n.Pool.Reuse = o.PoolReuse
 	co := o.Conn
 	co.FramePool = n.Pool
 	host := o.Host
